@@ -98,7 +98,16 @@ class CoreGen:
             env[v] = INT
             self.features.add("let")
             return ("let", v, INT, e)
+        if in_func and self.rng.random() < 0.12:
+            ps = [n for n, t in env.items() if t == INT and n.startswith("p")]
+            if ps:
+                # plain assignment to one of the function's own parameters
+                self.features.add("param-assign")
+                return ("set", self.pick(ps), self.int_expr(env, 1))
         if r < 0.30 and ints:
+            if self.rng.random() < 0.3:
+                self.features.add("compound-assign")
+                return ("aug", self.pick(ints), self.pick(["+", "-"]), self.int_expr(env, 1))
             self.features.add("assign")
             return ("set", self.pick(ints), self.int_expr(env))
         if r < 0.36:
@@ -167,6 +176,10 @@ class CoreGen:
             self.features.add("early-return")
             return ("if", self.cond(env), [("ret", self.int_expr(env, 1))], None)
         strs = [n for n, t in env.items() if t == STR]
+        if r < 0.935 and strs:
+            # compound string append (PHP spells it `.=`); not expressible in the C rendering
+            self.features.add("str-append")
+            return ("sapp", self.pick(strs), self.pick(["z", "w1", " k"]))
         if r < 0.95 and strs:
             return ("out", ("var", self.pick(strs)))
         return ("out", self.int_expr(env, 1))
@@ -279,6 +292,13 @@ def interpret(prog, budget=100000):
             k = s[0]
             if k == "let" or k == "set":
                 env[s[1]] = ev(s[-1], env)
+            elif k == "aug":
+                b = ev(s[3], env)
+                env[s[1]] = env[s[1]] + b if s[2] == "+" else env[s[1]] - b
+                if abs(env[s[1]]) > 2 ** 30:
+                    raise Budget()
+            elif k == "sapp":
+                env[s[1]] = env[s[1]] + s[2]
             elif k == "newrec":
                 env[s[1]] = {FIELDS[0]: ev(s[2], env), FIELDS[1]: ev(s[3], env)}
             elif k == "newarr":
@@ -340,6 +360,7 @@ class Renderer:
     lang = ""
     ext = ""
     AND, OR, NOT = "&&", "||", "!"
+    SAPP = "+="
 
     def __init__(self, ident):
         self.ident = ident
@@ -398,6 +419,10 @@ class Renderer:
             self.let(ind, s[1], s[2], s[3])
         elif k == "set":
             self.emit(ind, f"{self.v(s[1])} = {self.expr(s[2])}{self.END}")
+        elif k == "aug":
+            self.emit(ind, f"{self.v(s[1])} {s[2]}= {self.expr(s[3])}{self.END}")
+        elif k == "sapp":
+            self.emit(ind, f"{self.v(s[1])} {self.SAPP} {self.expr(('str', s[2]))}{self.END}")
         elif k == "newrec":
             self.newrec(ind, s[1], s[2], s[3])
         elif k == "newarr":
@@ -725,6 +750,7 @@ class GoR(Renderer):
 
 class PhpR(Renderer):
     lang, ext = "php", "php"
+    SAPP = ".="
 
     def v(self, name):
         return "$" + name
